@@ -51,19 +51,81 @@ REFSEQ = "ACGT" * 60  # no homopolymer context
 
 
 class _Impl:
-    def __init__(self, core, vcf, haplotag, haplotagphase, make_aln, stage2):
+    def __init__(self, core, vcf, haplotag, haplotagphase, make_aln, stage2, stage1_table):
         self.core, self.vcf, self.haplotag, self.haplotagphase, self.make_aln, self.stage2 = core, vcf, haplotag, haplotagphase, make_aln, stage2
+        self.stage1_table = stage1_table
 
 
 def _alt(base):
     return {"A": "C", "C": "G", "G": "T", "T": "A"}[base]
 
 
+def _alts(pos, nalt):
+    """ALT alleles of the record at `pos`: one, or two distinct ones for a 2-ALT record"""
+    base = REFSEQ[pos]
+    return [_alt(base)] + ([{"A": "G", "C": "T", "G": "A", "T": "C"}[base]] if nalt == 2 else [])
+
+
+def _variant(vcfmod, pos, nalt):
+    if nalt == 1:
+        return vcfmod.BiallelicVcfVariant(pos, REFSEQ[pos], _alts(pos, 1)[0])
+    return vcfmod.MultiallelicVcfVariant(pos, REFSEQ[pos], _alts(pos, nalt))
+
+
+def _table(core, vcfmod, rows, mav):
+    """What VcfReader(path, phases=True, mav=mav) yields for the records `rows` (pos -> dict(gt, phased, ps, nalt)):
+    records with more than one ALT allele are left out unless mav (VcfReader._process_single_chromosome); a phase exists
+    for a phased heterozygous GT (VcfReader._extract_GT_PS_phase)."""
+    vt = vcfmod.VariantTable(CHROM, [SAMPLE])
+    for pos in sorted(rows):
+        r = rows[pos]
+        nalt = r.get("nalt", 1)
+        if nalt > 1 and not mav:
+            continue
+        ph = vcfmod.VariantCallPhase(block_id=r["ps"], phase=tuple(r["gt"]), quality=None) if r["phased"] else None
+        vt.add_variant(_variant(vcfmod, pos, nalt), [core.Genotype(sorted(r["gt"]))], [ph], [None], [None])
+    return vt
+
+
+def _write_vcf(path, rows):
+    with open(path, "w") as f:
+        f.write("##fileformat=VCFv4.2\n##contig=<ID=%s,length=%d>\n" % (CHROM, len(REFSEQ)))
+        f.write('##FORMAT=<ID=GT,Number=1,Type=String,Description="Genotype">\n##FORMAT=<ID=PS,Number=1,Type=Integer,Description="Phase set">\n')
+        f.write("#CHROM\tPOS\tID\tREF\tALT\tQUAL\tFILTER\tINFO\tFORMAT\t%s\n" % SAMPLE)
+        for pos in sorted(rows):
+            r = rows[pos]
+            alts = ",".join(_alts(pos, r.get("nalt", 1)))
+            if r["phased"]:
+                f.write("%s\t%d\t.\t%s\t%s\t.\tPASS\t.\tGT:PS\t%d|%d:%d\n" % (CHROM, pos + 1, REFSEQ[pos], alts, r["gt"][0], r["gt"][1], r["ps"]))
+            else:
+                f.write("%s\t%d\t.\t%s\t%s\t.\tPASS\t.\tGT\t%d/%d\n" % (CHROM, pos + 1, REFSEQ[pos], alts, r["gt"][0], r["gt"][1]))
+
+
+def _sym_stage1_table(sub, core, vcfmod, rows):
+    # run_haplotag opens VcfReader(variant_file, only_snvs=False, phases=True, ploidy=ploidy): no mav
+    return _table(core, vcfmod, rows, mav=False)
+
+
+def _real_stage1_table(sub, core, vcfmod, rows):
+    """the original phased VCF as a file (2-ALT records with both ALT alleles), parsed the way run_haplotag does"""
+    d = tempfile.mkdtemp(prefix="c17-", dir="/var/tmp")
+    try:
+        path = os.path.join(d, "phased.vcf")
+        _write_vcf(path, rows)
+        with contextlib.redirect_stderr(io.StringIO()):
+            with vcfmod.VcfReader(path, only_snvs=False, phases=True, ploidy=2) as reader:
+                tables = list(reader)
+        return tables[0] if tables else vcfmod.VariantTable(CHROM, [SAMPLE])
+    finally:
+        shutil.rmtree(d, ignore_errors=True)
+
+
 class _WriterModel:
     """PhasedVcfWriter.write for one sample, tag PS (see module docstring)."""
 
-    def __init__(self, rows):
-        self.rows = rows  # pos -> dict(gt, phased, ps)
+    def __init__(self, rows, mav=False):
+        self.rows = rows  # pos -> dict(gt, phased, ps[, nalt])
+        self.mav = mav  # the `mav` argument run_haplotagphase hands to PhasedVcfWriter
         self.result = None
 
     def __enter__(self):
@@ -81,32 +143,29 @@ class _WriterModel:
         phases = {}
         for variants in zip(*sr):
             phasing = tuple(v.allele for v in variants)
-            if all(a in (0, 1) for a in phasing):
+            if self.mav or all(a in (0, 1) for a in phasing):
                 phases[variants[0].position] = phasing
         out = {}
         for pos, r in self.rows.items():
-            gt = tuple(sorted(r["gt"]))  # _remove_existing_phasing
+            gt = tuple(sorted(r["gt"]))  # _remove_existing_phasing: GT sorted and unphased, an existing PS value blanked
             is_het = len(set(gt)) > 1
-            if pos in comp and pos in phases:
+            if r.get("nalt", 1) > 1 and not self.mav:
+                out[pos] = (gt, False, None)  # "we do not phase multiallelic sites unless requested"
+            elif pos in comp and pos in phases:
                 if tuple(sorted(phases[pos])) != gt:
-                    gt = tuple(phases[pos])  # genotype change
+                    gt = tuple(sorted(phases[pos], reverse=True))  # genotype change: GT = Genotype.as_vector()
                     is_het = len(set(gt)) > 1
                 if is_het:
                     out[pos] = (tuple(phases[pos]), True, comp[pos] + 1)
                 else:
                     out[pos] = (gt, False, None)
             else:
-                out[pos] = (gt, False, r["ps"])  # record skipped: PS value stays behind
+                out[pos] = (gt, False, None)  # record skipped
         self.result = out
 
 
 def _sym_stage2(sub, mod, core, vcfmod, rows, reads):
     hm = sub.hm
-    vt = vcfmod.VariantTable(CHROM, [SAMPLE])
-    for pos in sorted(rows):
-        r = rows[pos]
-        ph = vcfmod.VariantCallPhase(block_id=r["ps"], phase=tuple(r["gt"]), quality=None) if r["phased"] else None
-        vt.add_variant(vcfmod.BiallelicVcfVariant(pos, REFSEQ[pos], _alt(REFSEQ[pos])), [core.Genotype(sorted(r["gt"]))], [ph], [None], [None])
 
     class _Vcf(list):
         samples = [SAMPLE]
@@ -125,9 +184,14 @@ def _sym_stage2(sub, mod, core, vcfmod, rows, reads):
             return False
 
     wm = _WriterModel(rows)
+
+    def writer(*a, **k):
+        wm.mav = bool(k.get("mav", False))
+        return wm
+
     mod.PhasedInputReader = lambda *a, **k: hm.Reader(core, {SAMPLE: reads})
-    mod.VcfReader = lambda *a, **k: _Vcf([vt])
-    mod.PhasedVcfWriter = lambda *a, **k: wm
+    mod.VcfReader = lambda *a, **k: _Vcf([_table(core, vcfmod, rows, bool(k.get("mav", False)))])
+    mod.PhasedVcfWriter = writer
     mod.IndexedFasta = lambda path: _Fasta({CHROM: REFSEQ})
     with contextlib.redirect_stdout(io.StringIO()):
         mod.run_haplotagphase(variant_file="in.vcf", alignment_file="tagged.bam", output="out.vcf", reference="ref.fa", write_command_line_header=False)
@@ -145,16 +209,7 @@ def _real_stage2(sub, mod, core, vcfmod, rows, reads):
             f.write(">%s\n%s\n" % (CHROM, REFSEQ))
         pysam.faidx(fa)
         vin, vout = os.path.join(d, "in.vcf"), os.path.join(d, "out.vcf")
-        with open(vin, "w") as f:
-            f.write("##fileformat=VCFv4.2\n##contig=<ID=%s,length=%d>\n" % (CHROM, len(REFSEQ)))
-            f.write('##FORMAT=<ID=GT,Number=1,Type=String,Description="Genotype">\n##FORMAT=<ID=PS,Number=1,Type=Integer,Description="Phase set">\n')
-            f.write("#CHROM\tPOS\tID\tREF\tALT\tQUAL\tFILTER\tINFO\tFORMAT\t%s\n" % SAMPLE)
-            for pos in sorted(rows):
-                r = rows[pos]
-                if r["phased"]:
-                    f.write("%s\t%d\t.\t%s\t%s\t.\tPASS\t.\tGT:PS\t%d|%d:%d\n" % (CHROM, pos + 1, REFSEQ[pos], _alt(REFSEQ[pos]), r["gt"][0], r["gt"][1], r["ps"]))
-                else:
-                    f.write("%s\t%d\t.\t%s\t%s\t.\tPASS\t.\tGT\t%d/%d\n" % (CHROM, pos + 1, REFSEQ[pos], _alt(REFSEQ[pos]), r["gt"][0], r["gt"][1]))
+        _write_vcf(vin, rows)
         saved = mod.PhasedInputReader
         mod.PhasedInputReader = lambda *a, **k: hm.Reader(core, {SAMPLE: reads})
         try:
@@ -171,6 +226,19 @@ def _real_stage2(sub, mod, core, vcfmod, rows, reads):
         return out
     finally:
         shutil.rmtree(d, ignore_errors=True)
+
+
+_PHASES = {"b": [(0, 1), (1, 0)], "m": [(0, 1), (1, 0), (0, 2), (2, 0), (1, 2), (2, 1)]}
+
+
+def _read_options(V, psidx):
+    """a read: non-empty subset of the variants of one phase set"""
+    opts = []
+    for ps in sorted(set(psidx)):
+        members = [i for i in range(V) if psidx[i] == ps]
+        for m in range(1, len(members) + 1):
+            opts += [list(c) for c in itertools.combinations(members, m)]
+    return opts
 
 
 class Chain(SubCheck):
@@ -197,11 +265,7 @@ class Chain(SubCheck):
             for psidx in itertools.product((0, 1), repeat=V):
                 if psidx[0] != 0:
                     continue
-                opts = []  # a read: non-empty subset of the variants of one phase set
-                for ps in sorted(set(psidx)):
-                    members = [i for i in range(V) if psidx[i] == ps]
-                    for m in range(1, len(members) + 1):
-                        opts += [list(c) for c in itertools.combinations(members, m)]
+                opts = _read_options(V, psidx)
                 for R in range(1, rmax + 1):
                     if V == 4 and R == 3:
                         continue  # thorough: V = 4 with up to two reads, three reads up to V = 3
@@ -225,7 +289,7 @@ class Chain(SubCheck):
         ht = self.world.load("whatshap.cli.haplotag")
         hp = self.world.load("whatshap.cli.haplotagphase")
         vcf = self.world.load("whatshap.vcf")
-        self.sym = _Impl(core_model, vcf, ht, hp, hm.make_sym_aln, _sym_stage2)
+        self.sym = _Impl(core_model, vcf, ht, hp, hm.make_sym_aln, _sym_stage2, _sym_stage1_table)
         os.makedirs(build.CACHE, exist_ok=True)
         with open(os.path.join(build.CACHE, ".lock-c10"), "w") as lock:
             fcntl.flock(lock, fcntl.LOCK_EX)
@@ -237,7 +301,7 @@ class Chain(SubCheck):
         import whatshap.cli.haplotagphase
 
         pysam.set_verbosity(0)
-        self.real = _Impl(real["core"], whatshap.vcf, whatshap.cli.haplotag, whatshap.cli.haplotagphase, hm.make_real_aln, _real_stage2)
+        self.real = _Impl(real["core"], whatshap.vcf, whatshap.cli.haplotag, whatshap.cli.haplotagphase, hm.make_real_aln, _real_stage2, _real_stage1_table)
 
     def sym_impl(self):
         return self.sym
@@ -251,23 +315,30 @@ class Chain(SubCheck):
 
     def harness(self, e, shape, impl):
         V, psidx, rcov = shape["V"], shape["psidx"], shape["reads"]
+        multi = "kinds" in shape  # chain_multiallelic: 'b' = one ALT allele, 'm' = two ALT alleles
+        kinds = shape["kinds"] if multi else "b" * V
+        nalt = [2 if k == "m" else 1 for k in kinds]
         positions = [10 * (i + 1) + i for i in range(V)]  # 0-based
         block = {ps: min(positions[i] for i in range(V) if psidx[i] == ps) + 1 for ps in set(psidx)}
-        phases = [list(e.choice("phase%d" % i, [(0, 1), (1, 0)])) for i in range(V)]
-        hom = e.choice("hom", [None] + (list(range(V)) if V <= 2 else [V - 1]))
+        phases = [list(e.choice("phase%d" % i, _PHASES[kinds[i]])) for i in range(V)]
+        # homozygous records are the business of `chain`; chain_multiallelic has none
+        hom = None if multi else e.choice("hom", [None] + (list(range(V)) if V <= 2 else [V - 1]))
         if len(set(psidx)) > 1:
             e.cover("two phase sets")
         if hom is not None:
             e.cover("homozygous variant present")
-        # ---- original phased table ----
-        vt = impl.vcf.VariantTable(CHROM, [SAMPLE])
+        # ---- original phased table, as `whatshap haplotag` gets it ----
+        orig = {}
         for i, pos in enumerate(positions):
             if i == hom:
-                gt, ph = impl.core.Genotype([1, 1]), None
+                orig[pos] = dict(gt=(1, 1), phased=False, ps=None, nalt=nalt[i])
             else:
-                gt = impl.core.Genotype([0, 1])
-                ph = impl.vcf.VariantCallPhase(block_id=block[psidx[i]], phase=tuple(phases[i]), quality=None)
-            vt.add_variant(impl.vcf.BiallelicVcfVariant(pos, REFSEQ[pos], _alt(REFSEQ[pos])), [gt], [ph], [None], [None])
+                orig[pos] = dict(gt=tuple(phases[i]), phased=True, ps=block[psidx[i]], nalt=nalt[i])
+        if multi:
+            vt = impl.stage1_table(self, impl.core, impl.vcf, orig)
+            e.out("stage1_table", [(v.position, list(ph.phase), ph.block_id) if ph is not None else (v.position, None, None) for v, ph in zip(vt.variants, vt.phases_of(SAMPLE))])
+        else:
+            vt = _table(impl.core, impl.vcf, orig, mav=False)
         # ---- error-free reads ----
         hap = [e.bit("hap%d" % r) for r in range(len(rcov))]
         rvars = []
@@ -282,57 +353,142 @@ class Chain(SubCheck):
             impl.haplotag.attempt_add_phase_information(aln, r2h, bx, 50000, True)
             tags.append(dict(aln.get_tags()))
         e.out("stage1_tags", [sorted(t.items()) for t in tags])
-        ctx1 = lambda: dict(positions=positions, phase_set_of_variant=[block[p] for p in psidx], phases=phases, homozygous=hom, read_haplotypes=hap,
+        ctx1 = lambda: dict(positions=positions, alt_alleles=nalt, phase_set_of_variant=[block[p] for p in psidx], phases=phases, homozygous=hom, read_haplotypes=hap,
                             reads=[[(p, a, e.value(q)) for p, a, q in rv] for rv in rvars], stage1_tags=e.value([sorted(t.items()) for t in tags]))
         for r, cov in enumerate(rcov):
-            informative = [i for i in cov if i != hom]
+            informative = [i for i in cov if i != hom and nalt[i] == 1]
             if informative:
                 e.check(tags[r].get("HP") == hap[r] + 1 and tags[r].get("PS") == block[psidx[cov[0]]], "stage 1: an error-free read is not tagged with its haplotype and phase set", ctx1)
-            else:
+            elif all(i == hom for i in cov):
                 e.check("HP" not in tags[r], "stage 1: a read without heterozygous variants was tagged", ctx1)
+            elif "HP" not in tags[r]:
+                # the read covers heterozygous variants, but only 2-ALT ones, which `whatshap haplotag` does not load: whether
+                # it is tagged is not the statement's business (if it is, then with its haplotype)
+                e.cover("read covering only 2-ALT variants is left untagged by haplotag")
+            else:
+                e.check(tags[r].get("HP") == hap[r] + 1 and tags[r].get("PS") == block[psidx[cov[0]]], "stage 1: an error-free read is not tagged with its haplotype and phase set", ctx1)
         e.cover("stage 1 tags every read with its true haplotype")
         # ---- second stage: same records, some unphased; reads as ReadSetReader builds them from the tagged BAM ----
         unph = [bool(e.bit("unphased%d" % i)) if i != hom else True for i in range(V)]
         rows = {}
         for i, pos in enumerate(positions):
             if i == hom:
-                rows[pos] = dict(gt=(1, 1), phased=False, ps=None)
+                rows[pos] = dict(gt=(1, 1), phased=False, ps=None, nalt=nalt[i])
             elif unph[i]:
-                rows[pos] = dict(gt=(0, 1), phased=False, ps=None)
+                rows[pos] = dict(gt=tuple(sorted(phases[i])), phased=False, ps=None, nalt=nalt[i])
             else:
-                rows[pos] = dict(gt=tuple(phases[i]), phased=True, ps=block[psidx[i]])
+                rows[pos] = dict(gt=tuple(phases[i]), phased=True, ps=block[psidx[i]], nalt=nalt[i])
         reads2 = [dict(name="r%d" % r, start=5, hp=tags[r].get("HP", -1), ps=tags[r].get("PS", -1), vars=rvars[r]) for r in range(len(rcov))]
         result = impl.stage2(self, impl.haplotagphase, impl.core, impl.vcf, rows, reads2)
         e.out("stage2", sorted((p, list(v[0]), v[1], v[2]) for p, v in result.items()))
         ctx = lambda: dict(ctx1(), second_input={p: (r["gt"], r["phased"], r["ps"]) for p, r in rows.items()}, output=e.value(sorted((p, list(v[0]), v[1], v[2]) for p, v in result.items())))
+        newly = []
         for i, pos in enumerate(positions):
             gt, phased, ps = result[pos]
             covered = any(i in cov for cov in rcov)
+            voted = any(i in cov and "HP" in tags[r] for r, cov in enumerate(rcov))  # == covered when every variant is biallelic
             if i == hom:
                 e.check(not phased and tuple(sorted(gt)) == (1, 1), "a homozygous variant was phased or its genotype changed", ctx)
                 continue
             if unph[i]:
                 if phased:
                     e.cover("stage 2 phases an unphased variant")
-                    e.check(tuple(gt) == tuple(phases[i]), "a variant phased by haplotagphase does not have the haplotype order of the original phasing", lambda: dict(ctx(), position=pos))
-                    e.check(ps == block[psidx[i]], "a variant phased by haplotagphase does not get the phase set of the reads that cover it", lambda: dict(ctx(), position=pos))
-                    e.check(covered, "a variant no read covers was phased", lambda: dict(ctx(), position=pos))
+                    e.check(tuple(gt) == tuple(phases[i]), "a variant phased by haplotagphase does not have the haplotype order of the original phasing", lambda: dict(ctx(), position=pos, alt_alleles_of_record=nalt[i]))
+                    e.check(ps == block[psidx[i]], "a variant phased by haplotagphase does not get the phase set of the reads that cover it", lambda: dict(ctx(), position=pos, alt_alleles_of_record=nalt[i]))
+                    e.check(covered, "a variant no read covers was phased", lambda: dict(ctx(), position=pos, alt_alleles_of_record=nalt[i]))
                     e.cover("covered unphased variant gets phased")
+                    newly.append(i)
+                    if nalt[i] == 2:
+                        e.cover("2-ALT variant phased by stage 2 with the original order %d|%d" % tuple(phases[i]))
                 else:
-                    e.check(tuple(sorted(gt)) == (0, 1), "genotype of an unphased variant changed", lambda: dict(ctx(), position=pos))
+                    e.check(tuple(sorted(gt)) == tuple(sorted(phases[i])), "genotype of an unphased variant changed", lambda: dict(ctx(), position=pos, alt_alleles_of_record=nalt[i]))
+                    if multi and voted:
+                        # not a claim of the statement (thresholds), so only reported through the vacuity guard: with
+                        # error-free reads and default thresholds nothing should end up here
+                        e.cover("voted unphased variant stays unphased")
             else:
-                e.cover("already phased variant with votes" if covered else "already phased variant without votes")
+                e.cover("already phased variant with votes" if voted else "already phased variant without votes")
+                if nalt[i] == 2 and voted:
+                    e.cover("already phased 2-ALT variant with votes")
                 e.check(phased and tuple(gt) == tuple(phases[i]) and ps == block[psidx[i]],
-                        "a variant that was already phased in the input of haplotagphase was altered", lambda: dict(ctx(), position=pos, covered_by_a_tagged_read=covered))
+                        "a variant that was already phased in the input of haplotagphase was altered", lambda: dict(ctx(), position=pos, alt_alleles_of_record=nalt[i], covered_by_a_tagged_read=voted))
+        if any(nalt[i] == 2 for i in newly) and any(nalt[i] == 1 and psidx[i] == psidx[j] for i in newly for j in newly if nalt[j] == 2):
+            e.cover("2-ALT and biallelic variant phased in the same phase set")
+        if len({tuple(sorted(phases[i])) for i in newly if nalt[i] == 2}) > 1:
+            e.cover("two 2-ALT variants with different genotypes phased in one run")
 
     def classify(self, shape, v):
         info = v.get("info") or {}
         if v["msg"].startswith("a variant that was already phased"):
+            # same signature in both sub-checks: it is one defect (no vote -> the writer drops the existing phasing)
             return "chain:already phased variant altered:covered_by_a_tagged_read=%s" % info.get("covered_by_a_tagged_read")
-        return "chain:%s" % v["msg"]
+        if "alt_alleles_of_record" in info:
+            return "%s:%s:alt_alleles_of_record=%s" % (self.name, v["msg"], info.get("alt_alleles_of_record"))
+        return "%s:%s" % (self.name, v["msg"])
 
 
-SUBCHECKS = {c.name: c for c in [Chain()]}
+class ChainMultiallelic(Chain):
+    name = "chain_multiallelic"
+    assumptions = [
+        "error-free reads: every read shows, at each variant it covers, the allele (VCF allele index 0, 1 or 2) of one fixed haplotype of the original phasing; qualities >= 1",
+        "no read overlaps two phase sets (proviso of the statement); diploid; every record has one or two ALT alleles, 2-ALT records are heterozygous with any of the six phased genotypes over {0,1,2}; "
+        "no homozygous records here (sub-check chain has them); default options of haplotagphase (mav on, gap 70, cut-poly 10); reference without homopolymer runs",
+        "`whatshap haplotag` loads the phased VCF without multi-allelic support (run_haplotag's VcfReader call), so reads are tagged from the biallelic variants only",
+        "the second stage's reads carry the HP/PS tags written by the first stage unchanged and, at every variant, the allele index the real allele detection reports (index into REF + ALT list, restricted to the genotype's alleles)",
+        "phase sets are named by the 1-based position of their leftmost variant (what `whatshap phase` writes)",
+    ]
+    stubs = Chain.stubs + ["symbolic run only: VcfReader(mav=False) of the first stage = the table without the 2-ALT records; the replay writes the original phased VCF (two ALT alleles in those records) and parses it with the real VcfReader; "
+                           "the stand-ins of VcfReader/PhasedVcfWriter in the second stage honour the `mav` argument run_haplotagphase passes"]
+    required_cover = ["stage 1 tags every read with its true haplotype", "stage 2 phases an unphased variant", "covered unphased variant gets phased", "two phase sets",
+                      "already phased variant with votes", "already phased variant without votes", "already phased 2-ALT variant with votes",
+                      "read covering only 2-ALT variants is left untagged by haplotag", "2-ALT and biallelic variant phased in the same phase set",
+                      "two 2-ALT variants with different genotypes phased in one run"] + [
+                      "2-ALT variant phased by stage 2 with the original order %d|%d" % p for p in _PHASES["m"]]
+
+    def shapes(self, tier):
+        out = []
+
+        def add(kinds, psidx, reads):
+            out.append(dict(V=len(kinds), kinds=kinds, psidx=list(psidx), reads=[list(r) for r in reads]))
+
+        def all_reads(kinds, psidx, rmax):
+            opts = _read_options(len(kinds), psidx)
+            for R in range(1, rmax + 1):
+                for reads in itertools.combinations_with_replacement(opts, R):
+                    add(kinds, psidx, reads)
+
+        if tier == "quick":
+            # the big ones first (job balance)
+            add("bmm", (0, 0, 0), [[0, 1, 2]])
+            add("mbm", (0, 0, 0), [[0, 1], [1, 2]])
+            add("bbm", (0, 1, 1), [[0], [1, 2]])
+            add("bmb", (0, 0, 1), [[0, 1], [2]])
+            for kinds in ("bm", "mb"):
+                all_reads(kinds, (0, 0), 2)
+            add("m", (0,), [[0]])
+        else:
+            for kinds in ("bmm", "mbm", "mmb"):
+                all_reads(kinds, (0, 0, 0), 2)
+            for kinds in ("bbm", "bmb", "mbb"):
+                for psidx in ((0, 0, 0), (0, 0, 1), (0, 1, 1)):
+                    all_reads(kinds, psidx, 2)
+            for kinds in ("bm", "mb"):
+                all_reads(kinds, (0, 0), 3)
+                all_reads(kinds, (0, 1), 2)
+            all_reads("mm", (0, 0), 1)
+            all_reads("m", (0,), 2)
+            add("bmbm", (0, 0, 1, 1), [[0, 1], [2, 3]])
+        return out
+
+    def bounds(self, tier):
+        sh = self.shapes(tier)
+        return ("%d shapes: V <= %d diploid records, each with one ('b') or two ('m') ALT alleles [%s], in <= 2 phase sets, R <= %d error-free reads each covering a non-empty subset of one phase set's variants "
+                "(quick: every multiset of <= 2 reads for bm/mb, selected read sets for V = 3; thorough: every multiset of <= 2 reads for V = 3, <= 3 for V = 2); "
+                "symbolic: original phased genotype of every record (2 orders for 'b'; 0|1, 1|0, 0|2, 2|0, 1|2, 2|1 for 'm'), haplotype of every read, every quality in 1..3, which records are unphased in the second input"
+                % (len(sh), max(s["V"] for s in sh), ", ".join(sorted({s["kinds"] for s in sh})), max(len(s["reads"]) for s in sh)))
+
+
+SUBCHECKS = {c.name: c for c in [Chain(), ChainMultiallelic()]}
 
 if __name__ == "__main__":
     import sys
